@@ -19,6 +19,9 @@
  * the ledger of live instances.
  */
 #include "hc.h"
+#ifndef NO_WHITEBOX
+#include "Tree.c"      /* white-box seam: the library is linked without Tree.o */
+#endif
 
 #define MAXO 8
 static int ktk = VT_INT, vtk = VT_INT;
@@ -27,47 +30,108 @@ struct Slot { var obj; int kind; /* 1 Table 2 Tree */ int managed; };
 
 static const char* kind_name(int k) { return k == 1 ? "Table" : "Tree"; }
 
+static int light = 0;          /* >0: reduced projection with that many probe keys per event */
+static int force_full = 0;
+static int cur_k = 0;            /* key token touched by the current operation */
+static uint64_t probe_rng = 88172645463325252ULL;
+static uint64_t xs(void) { probe_rng ^= probe_rng << 13; probe_rng ^= probe_rng >> 7; probe_rng ^= probe_rng << 17; return probe_rng; }
+
+#ifndef NO_WHITEBOX
+/* white-box view of the red-black structure (C03 names it): nodes in preorder as
+   [key token, red, left, right, parent] with 1-based indices into the list */
+#define WB_MAX 40
+static var wb_nodes[WB_MAX + 8]; static int wb_n;
+static void wb_collect(struct Tree* m, var node, int depth) {
+  if (node == NULL || wb_n >= WB_MAX + 4 || depth > 64) return;
+  wb_nodes[wb_n++] = node;
+  wb_collect(m, *Tree_Left(m, node), depth + 1);
+  wb_collect(m, *Tree_Right(m, node), depth + 1);
+}
+static int wb_index(var node) { if (!node) return 0; for (int i = 0; i < wb_n; i++) if (wb_nodes[i] == node) return i + 1; return -1; }
+/* summary over trees of any size: returns black height or -1; fills counters */
+static long wb_count, wb_height, wb_redred, wb_parent;
+static long wb_walk(struct Tree* m, var node, var parent, int depth) {
+  if (node == NULL) return 1;
+  if (depth > 200) { wb_height = 9999; return -1; }
+  wb_count++;
+  if (depth + 1 > wb_height) wb_height = depth + 1;
+  if (Tree_Get_Parent(m, node) != parent) wb_parent++;
+  if (Tree_Is_Red(m, node) && (Tree_Is_Red(m, *Tree_Left(m, node)) || Tree_Is_Red(m, *Tree_Right(m, node)))) wb_redred++;
+  long a = wb_walk(m, *Tree_Left(m, node), node, depth + 1);
+  long b = wb_walk(m, *Tree_Right(m, node), node, depth + 1);
+  if (a < 0 || b < 0 || a != b) return -1;
+  return a + (Tree_Is_Red(m, node) ? 0 : 1);
+}
+#endif
+
 static void project(struct Slot* so, int o) {
   var c = so->obj;
-  long long buf[HC_MAXV];
+  static long long buf[1 << 16], ks[1 << 16], vs[1 << 16];
   size_t n;
+  int full = (light == 0) || force_full;
   ev_obj_begin();
   ev_int("o", o); ev_str("kind", kind_name(so->kind));
   ev_int("len", (long long)len(c));
-  /* forward iteration, bounded */
+  ev_int("full", full);
+  size_t nks = 0, nvs = 0;
   n = 0;
-  long long ks[HC_MAXV], vs[HC_MAXV]; size_t nks = 0, nvs = 0;
-  size_t lim = len(c) + 4; if (lim > HC_MAXV) lim = HC_MAXV;
-  var it = iter_init(c);
-  while (it != Terminal && n < lim) {
-    buf[n++] = vt_token(vt_k, vt_nk, it);
-    if (ktk == VT_PROBE && nks < HC_MAXV) ks[nks++] = ((struct Probe*)it)->serial;
-    if (vtk == VT_PROBE && nvs < HC_MAXV) { var v = get(c, it); vs[nvs++] = ((struct Probe*)v)->serial; }
-    it = iter_next(c, it);
-  }
-  ev_ints("it", buf, n);
-  n = 0;
-  it = iter_last(c);
-  while (it != Terminal && n < lim) { buf[n++] = vt_token(vt_k, vt_nk, it); it = iter_prev(c, it); }
-  ev_ints("bw", buf, n);
-  /* get / mem of every key of the universe, with a fresh key object each time */
-  long long gets[HC_MAXV], mems[HC_MAXV];
-  for (int k = 1; k <= vt_nk; k++) {
-    var key = vt_make(vt_k, k);
+  if (full) {
+    size_t lim = len(c) + 4; if (lim > (1 << 16)) lim = 1 << 16;
+    var it = iter_init(c);
+    while (it != Terminal && n < lim) {
+      buf[n++] = vt_token(vt_k, vt_nk, it);
+      if (ktk == VT_PROBE) ks[nks++] = ((struct Probe*)it)->serial;
+      if (vtk == VT_PROBE) { var v = get(c, it); vs[nvs++] = ((struct Probe*)v)->serial; }
+      it = iter_next(c, it);
+    }
+    ev_ints("it", buf, n);
+    n = 0;
+    it = iter_last(c);
+    while (it != Terminal && n < lim) { buf[n++] = vt_token(vt_k, vt_nk, it); it = iter_prev(c, it); }
+    ev_ints("bw", buf, n);
+  } else { ev_ints("it", buf, 0); ev_ints("bw", buf, 0); }
+  /* get / mem probes: every key of the universe (full) or the touched key plus a few others (light) */
+  static long long pk[HC_MAXV], pg[HC_MAXV], pm[HC_MAXV];
+  int np = 0;
+  if (full) { for (int k = 1; k <= vt_nk; k++) pk[np++] = k; }
+  else { if (cur_k > 0) pk[np++] = cur_k;
+         for (int i = 0; i < light && np < HC_MAXV; i++) pk[np++] = 1 + (long long)(xs() % (uint64_t)vt_nk); }
+  for (int i = 0; i < np; i++) {
+    var key = vt_make(vt_k, (int)pk[i]);
     volatile long long g = 0;
     try { var v = get(c, key); g = vt_token(vt_v, vt_nv, v); if (g == 0) g = -2; }
     catch (e) { g = (e == KeyError) ? 0 : -1; }
-    gets[k - 1] = g;
+    pg[i] = g;
     volatile long long mm = -1;
     try { mm = mem(c, key) ? 1 : 0; } catch (e) { mm = -1; }
-    mems[k - 1] = mm;
+    pm[i] = mm;
     vt_free(key);
   }
-  ev_ints("gets", gets, (size_t)vt_nk);
-  ev_ints("mems", mems, (size_t)vt_nk);
+  ev_ints("pk", pk, (size_t)np); ev_ints("pg", pg, (size_t)np); ev_ints("pm", pm, (size_t)np);
   ev_ints("ks", ks, nks); ev_ints("vs", vs, nvs);
   ev_str("kt", c_str(key_type(c)));
   ev_str("vt", c_str(val_type(c)));
+#ifndef NO_WHITEBOX
+  if (so->kind == 2) {
+    struct Tree* m = c;
+    wb_count = wb_height = wb_redred = wb_parent = 0;
+    long bh = wb_walk(m, m->root, NULL, 0);
+    long long rb[6] = { wb_count, wb_height, bh >= 0, wb_redred == 0, wb_parent == 0, Tree_Is_Black(m, m->root) };
+    ev_ints("rb", rb, 6);
+    wb_n = 0;
+    if (len(c) <= WB_MAX) wb_collect(m, m->root, 0);
+    ev_arr_begin("nodes");
+    if (full && len(c) <= WB_MAX) for (int i = 0; i < wb_n; i++) {
+      var nd = wb_nodes[i];
+      if (i) ev_s(",");
+      ev_s("["); ev_i(vt_token(vt_k, vt_nk, Tree_Key(m, nd))); ev_s(","); ev_i(Tree_Is_Red(m, nd) ? 1 : 0); ev_s(",");
+      ev_i(wb_index(*Tree_Left(m, nd))); ev_s(","); ev_i(wb_index(*Tree_Right(m, nd))); ev_s(",");
+      ev_i(wb_index(Tree_Get_Parent(m, nd))); ev_s("]");
+    }
+    ev_arr_end();
+  } else
+#endif
+  { long long z[1]; ev_ints("rb", z, 0); ev_arr_begin("nodes"); ev_arr_end(); }
   ev_obj_end();
 }
 
@@ -82,9 +146,12 @@ static void emit(struct Slot* objs, const char* op, int o, int k, int v, long lo
   for (size_t i = 0; i + 1 < n_init; i += 2) { if (i) ev_s(","); ev_s("["); ev_i(init_pairs[i]); ev_s(","); ev_i(init_pairs[i + 1]); ev_s("]"); }
   ev_arr_end();
   n_init = 0;
+  force_full = !strcmp(op, "snap");
+  cur_k = k;
   ev_arr_begin("objs");
   for (int i = 1; i < MAXO; i++) if (objs[i].obj) project(&objs[i], i);
   ev_arr_end();
+  force_full = 0;
   ev_ledger();
   ev_int("line", cur_line);
   ev_end();
@@ -108,6 +175,7 @@ int main(int argc, char** argv) {
     if (hc_is(0, "types")) { ktk = vt_kind_of(hc_w[1]); vtk = vt_kind_of(hc_w[2]); continue; }
     if (hc_is(0, "K")) { vt_define(vt_k, &vt_nk, ktk, (int)hc_int(1), hc_w[2]); continue; }
     if (hc_is(0, "W")) { vt_define(vt_v, &vt_nv, vtk, (int)hc_int(1), hc_w[2]); continue; }
+    if (hc_is(0, "light")) { light = (int)hc_int(1); continue; }
     if (hc_is(0, "hashmul")) { probe_hash_mul = (uint64_t)hc_int(1); continue; }
     if (hc_is(0, "hashes")) {
       for (int k = 1; k <= vt_nk; k++) { var key = vt_make(vt_k, k); ev_begin("hash"); ev_int("k", k); ev_limbs("h", hash(key)); ev_end(); vt_free(key); }
@@ -184,6 +252,8 @@ int main(int argc, char** argv) {
       HC_TRY(made = copy(objs[src].obj));
       so->obj = made; so->kind = objs[src].kind; so->managed = 1;
       emit(objs, "copy", o, 0, 0, 0, src, "", hc_exc, 0);
+    } else if (hc_is(0, "snap")) {
+      emit(objs, "snap", o, 0, 0, 0, 0, "", "", 0);
     } else if (hc_is(0, "del")) {
       drop(so);
       emit(objs, "del", o, 0, 0, 0, 0, "", "", 0);
